@@ -54,7 +54,7 @@ fn enc_mode(s: &Setup, plain: &Plaintext, mode: i32) -> Ciphertext {
 
 /// plaintext coefficients that sit on the boundaries of the word arithmetic inside `multiply_add_plain`:
 /// (q mod t)·m + (t+1)/2 just below / at / above multiples of 2^64 (carry into the high word), and the usual extremes
-fn carry_boundary_coeffs(r: &mut Rng, t: u64, q_mod_t: u64) -> Vec<u64> {
+pub fn carry_boundary_coeffs(r: &mut Rng, t: u64, q_mod_t: u64) -> Vec<u64> {
     let mut v = vec![0, 1, t - 1, t / 2, (t + 1) / 2, t.saturating_sub(2)];
     if q_mod_t > 0 {
         for k in 1u128..=6 {
